@@ -62,6 +62,21 @@ def gen_cases(ctx, reps, n_sim):
         for u in c["prior"]:
             c["prior"][u][0] = 0.0       # no prior mass at time 0 for a non-sample node (as in every prior tsdate builds)
         cases.append(c)
+    # heavy evidence, LINEAR space: every edge carries 150-450 mutations (beyond 170!, where a factorial leaves the
+    # double range although the Poisson mass itself is of order 1e-2); rate and grid chosen so that expected counts
+    # at the grid spacings are of the same order as the counts and the exact weights stay well inside the doubles
+    for _ in range(ctx.n(6, 24)):
+        shape = rng.choice([((), ((), ())), ((), ())])
+        d = D.shape_to_tables(shape, rng, L=1.0)
+        d = D.canon(D.add_mutations(d, [rng.randint(150, 450) for _ in d["edges"]], rng))
+        sc = rng.choice([0.5, 1.0, 2.0])
+        c = D.make_case(rng, d, kind="heavy-linear", space=D.LIN, mu=float(rng.choice([150, 200, 300])) / sc,
+                        grid=[round(sc * x, 8) for x in [0.0, 0.5, 1.0, 1.5, 2.0, 3.0, 4.0]],
+                        eps=rng.choice([1e-6, 1e-8]), offedge=0, exotic=False, ties=False,
+                        **D.random_options(rng, ctx.tier == "thorough"))
+        for u in c["prior"]:
+            c["prior"][u][0] = 0.0
+        cases.append(c)
     for _ in range(n_sim):
         d = D.sim_dict(rng, n=rng.randint(2, 6), trees="single")
         if not D.is_single_tree(d):
